@@ -36,6 +36,17 @@ type lsmState struct {
 	oracle  string           // which property's oracle is active: c12 c13 c14 c36 c07 all
 	created map[uint64]int64 // table id -> virtual creation time (unix nano)
 	seqno   int
+	normal  bool   // normal (oracle-assigned timestamps) mode
+	snaps   []*Txn // open snapshot transactions (normal mode)
+	held    []heldItem
+}
+
+type heldItem struct {
+	txn  *Txn
+	item *Item
+	key  string
+	want string
+	it   *Iterator
 }
 
 func (st *lsmState) maxTs() uint64 {
@@ -76,7 +87,8 @@ func lsmValue(k string, ts uint64, big bool) string {
 
 func lsmOpts(x *seqExec) Options {
 	o := smallOpts(x.dir)
-	o.managedTxns = true
+	o.managedTxns = x.j.Str("mode", "managed") != "normal"
+	o.ValueLogMaxEntries = uint32(x.j.Int("vlog_max_entries", 1000000))
 	o.MemTableSize = 64 << 10
 	o.BaseTableSize = int64(x.j.Int("table_size", 256))
 	o.BaseLevelSize = int64(x.j.Int("base_level_size", 600))
@@ -100,6 +112,7 @@ func lsmOpen(x *seqExec) {
 	st := &lsmState{nextTs: 1, created: map[uint64]int64{}}
 	st.opts = lsmOpts(x)
 	st.oracle = x.j.Str("oracle", "c12")
+	st.normal = !st.opts.managedTxns
 	nk := x.j.Int("keys", 2)
 	st.keys = []string{"a", "b", "c", "d"}[:nk]
 	x.st = st
@@ -107,9 +120,26 @@ func lsmOpen(x *seqExec) {
 }
 
 func lsmClose(x *seqExec) {
+	if st, ok := x.st.(*lsmState); ok {
+		st.releaseAll()
+	}
 	if x.db != nil {
 		_ = x.db.Close()
 	}
+}
+
+func (st *lsmState) releaseAll() {
+	for _, h := range st.held {
+		if h.it != nil {
+			h.it.Close()
+		}
+		h.txn.Discard()
+	}
+	st.held = nil
+	for _, t := range st.snaps {
+		t.Discard()
+	}
+	st.snaps = nil
 }
 
 // fixAges gives every table a virtual creation time (file mtimes are real time, the bubble clock
@@ -236,8 +266,33 @@ func lsmEnabled(x *seqExec) []string {
 			ops = append(ops, "D"+k)
 		}
 	}
+	if x.j.Bool("multi", false) {
+		ops = append(ops, "P")
+	}
 	if x.j.Bool("big", false) {
 		ops = append(ops, "B"+st.keys[0])
+		if len(st.keys) > 1 {
+			ops = append(ops, "B"+st.keys[1])
+		}
+	}
+	if x.j.Bool("ttl", false) {
+		ops = append(ops, "L"+st.keys[0])
+	}
+	if st.normal && x.j.Bool("snapshots", true) {
+		if len(st.snaps) < x.j.Int("max_snaps", 2) {
+			ops = append(ops, "O")
+		}
+		if len(st.snaps) > 0 {
+			ops = append(ops, "X")
+		}
+	}
+	if x.j.Bool("gc", false) {
+		ops = append(ops, "G")
+		if len(st.held) == 0 {
+			ops = append(ops, "K"+st.keys[0], "I"+st.keys[0])
+		} else {
+			ops = append(ops, "Z")
+		}
 	}
 	if st.oracle == "c13" || x.j.Bool("discard_entries", false) {
 		ops = append(ops, "E"+st.keys[0])
@@ -246,14 +301,14 @@ func lsmEnabled(x *seqExec) []string {
 		ops = append(ops, "F")
 	}
 	ops = append(ops, "C0", "C1")
-	if st.maxTs() > st.discard {
+	if !st.normal && st.maxTs() > st.discard {
 		ops = append(ops, "T")
 	}
 	ops = append(ops, "A")
 	if x.j.Bool("lmax", false) {
 		ops = append(ops, "H", "CL")
 	}
-	if x.j.Bool("reopen", false) {
+	if x.j.Bool("reopen", false) && len(st.snaps) == 0 && len(st.held) == 0 {
 		ops = append(ops, "R")
 	}
 	if x.j.Bool("closecompact", false) {
@@ -278,66 +333,156 @@ func lsmEnabled(x *seqExec) []string {
 func lsmApply(x *seqExec, op string) bool {
 	st := x.st.(*lsmState)
 	db := x.db
-	defer st.fixAges(x.db)
+	defer func() { st.fixAges(x.db) }()
 	switch op[0] {
-	case 'S', 'B', 'D', 'E':
+	case 'S', 'B', 'D', 'E', 'L':
+		// S set, B big (value log) set, D delete, E set with discard-earlier-versions, L set with TTL
 		k := op[1:]
 		ts := st.nextTs
 		st.nextTs++
-		txn := db.NewTransactionAt(ts, true)
+		var txn *Txn
+		if st.normal {
+			txn = db.NewTransaction(true)
+		} else {
+			txn = db.NewTransactionAt(ts, true)
+		}
 		w := mwrite{Key: k, Ts: ts}
 		var err error
+		mkval := func(ts uint64) string { return lsmValue(k, ts, op[0] == 'B') }
+		if st.normal {
+			// the commit timestamp is not known yet: tag the value with the write ordinal
+			mkval = func(uint64) string { return lsmValue(k, uint64(len(st.writes)+1), op[0] == 'B') }
+		}
 		switch op[0] {
 		case 'D':
 			w.Del = true
 			err = txn.Delete([]byte(k))
 		case 'E':
-			w.Val = lsmValue(k, ts, false)
+			w.Val = mkval(ts)
 			w.Meta = bitDiscardEarlierVersions
 			err = txn.SetEntry(NewEntry([]byte(k), []byte(w.Val)).WithDiscard())
+		case 'L':
+			w.Val = mkval(ts)
+			e := NewEntry([]byte(k), []byte(w.Val)).WithTTL(5 * time.Second)
+			w.Exp = e.ExpiresAt
+			err = txn.SetEntry(e)
 		default:
-			w.Val = lsmValue(k, ts, op[0] == 'B')
+			w.Val = mkval(ts)
 			err = txn.Set([]byte(k), []byte(w.Val))
 		}
 		if err != nil {
 			panic(err)
 		}
-		if err := txn.CommitAt(ts, nil); err != nil {
+		if st.normal {
+			if err := txn.Commit(); err != nil {
+				panic(fmt.Sprintf("commit %s: %v", op, err))
+			}
+			w.Ts = db.orc.nextTs() - 1
+		} else if err := txn.CommitAt(ts, nil); err != nil {
 			panic(fmt.Sprintf("commit %s: %v", op, err))
 		}
 		st.writes = append(st.writes, w)
 		return true
-	case 'M', 'X', 'W':
-		k := op[1:2]
-		var ts uint64
-		fmt.Sscanf(op[2:], "%d", &ts)
-		st.seqno++
-		w := mwrite{Key: k, Ts: ts, Val: string(val(fmt.Sprintf("%s@%d#%d", k, ts, st.seqno), 24)), Del: op[0] == 'X'}
-		if op[0] == 'W' {
-			wb := db.NewManagedWriteBatch()
-			if err := wb.SetEntryAt(NewEntry([]byte(k), []byte(w.Val)), ts); err != nil {
-				panic(err)
-			}
-			if err := wb.Flush(); err != nil {
-				panic(err)
-			}
+	case 'P': // one transaction writing every key (atomic multi-key commit)
+		ts := st.nextTs
+		st.nextTs++
+		var txn *Txn
+		if st.normal {
+			txn = db.NewTransaction(true)
 		} else {
-			txn := db.NewTransactionAt(ts, true)
-			var err error
-			if w.Del {
-				err = txn.Delete([]byte(k))
-			} else {
-				err = txn.Set([]byte(k), []byte(w.Val))
-			}
-			if err != nil {
+			txn = db.NewTransactionAt(ts, true)
+		}
+		var ws []mwrite
+		for _, k := range st.keys {
+			w := mwrite{Key: k, Ts: ts, Val: lsmValue(k, uint64(len(st.writes)+1), false)}
+			if err := txn.Set([]byte(k), []byte(w.Val)); err != nil {
 				panic(err)
 			}
-			if err := txn.CommitAt(ts, nil); err != nil {
-				panic(fmt.Sprintf("commit %s: %v", op, err))
-			}
+			ws = append(ws, w)
 		}
-		st.writes = append(st.writes, w)
+		if st.normal {
+			if err := txn.Commit(); err != nil {
+				panic(err)
+			}
+			ts = db.orc.nextTs() - 1
+		} else if err := txn.CommitAt(ts, nil); err != nil {
+			panic(err)
+		}
+		for _, w := range ws {
+			w.Ts = ts
+			st.writes = append(st.writes, w)
+		}
 		return true
+	case 'O': // open a snapshot (read-only transaction kept open)
+		st.snaps = append(st.snaps, db.NewTransaction(false))
+		return true
+	case 'X':
+		if op == "X" { // close the oldest snapshot
+			st.snaps[0].Discard()
+			st.snaps = st.snaps[1:]
+			return true
+		}
+		return st.applyManagedTs(db, op)
+	case 'M', 'W':
+		return st.applyManagedTs(db, op)
+	case 'K', 'I': // hold a Get item (K) / an iterator item (I) of key in a transaction that stays open
+		k := op[1:]
+		var txn *Txn
+		if st.normal {
+			txn = db.NewTransaction(false)
+		} else {
+			txn = db.NewTransactionAt(st.maxTs(), false)
+		}
+		h := heldItem{txn: txn, key: k}
+		if op[0] == 'K' {
+			it, err := txn.Get([]byte(k))
+			if err != nil {
+				txn.Discard()
+				return false
+			}
+			h.item = it
+		} else {
+			o := DefaultIteratorOptions
+			o.PrefetchValues = false
+			h.it = txn.NewIterator(o)
+			h.it.Seek([]byte(k))
+			if !h.it.Valid() || string(h.it.Item().Key()) != k {
+				h.it.Close()
+				txn.Discard()
+				return false
+			}
+			h.item = h.it.Item()
+		}
+		v, err := h.item.ValueCopy(nil)
+		if err != nil {
+			panic(err)
+		}
+		h.want = string(v)
+		st.held = append(st.held, h)
+		return true
+	case 'Z': // release held items
+		for _, h := range st.held {
+			if h.it != nil {
+				h.it.Close()
+			}
+			h.txn.Discard()
+		}
+		st.held = nil
+		return true
+	case 'G': // value-log GC of the oldest sealed file; discard statistics are forced (any file below the active one may be picked)
+		db.vlog.filesLock.RLock()
+		fids := db.vlog.sortedFids()
+		maxFid := db.vlog.maxFid
+		db.vlog.filesLock.RUnlock()
+		if len(fids) == 0 || fids[0] >= maxFid {
+			return false
+		}
+		db.vlog.discardStats.Update(fids[0], 1<<30)
+		err := db.RunValueLogGC(0.01)
+		if err != nil && err != ErrNoRewrite {
+			panic(fmt.Sprintf("RunValueLogGC: %v", err))
+		}
+		return err == nil
 	case 'F':
 		return lsmFlush(db)
 	case 'C':
@@ -373,18 +518,59 @@ func lsmApply(x *seqExec, op string) bool {
 			panic(fmt.Sprintf("close: %v", err))
 		}
 		x.db = nil
-		ndb, err := OpenManaged(st.opts)
+		var ndb *DB
+		var err error
+		if st.opts.managedTxns {
+			ndb, err = OpenManaged(st.opts)
+		} else {
+			ndb, err = Open(st.opts)
+		}
 		if err != nil {
 			panic(fmt.Sprintf("REOPEN FAILED: %v", err))
 		}
 		x.db = ndb
-		if st.discard > 0 {
+		if st.discard > 0 && st.opts.managedTxns {
 			ndb.SetDiscardTs(st.discard)
 		}
 		synctest.Wait()
 		return true
 	}
 	panic("unknown op " + op)
+}
+
+// applyManagedTs: C36 operations with caller-chosen timestamps: M<k><ts> set, X<k><ts> delete,
+// W<k><ts> SetEntryAt through a managed write batch.
+func (st *lsmState) applyManagedTs(db *DB, op string) bool {
+	k := op[1:2]
+	var ts uint64
+	fmt.Sscanf(op[2:], "%d", &ts)
+	st.seqno++
+	w := mwrite{Key: k, Ts: ts, Val: string(val(fmt.Sprintf("%s@%d#%d", k, ts, st.seqno), 24)), Del: op[0] == 'X'}
+	if op[0] == 'W' {
+		wb := db.NewManagedWriteBatch()
+		if err := wb.SetEntryAt(NewEntry([]byte(k), []byte(w.Val)), ts); err != nil {
+			panic(err)
+		}
+		if err := wb.Flush(); err != nil {
+			panic(err)
+		}
+	} else {
+		txn := db.NewTransactionAt(ts, true)
+		var err error
+		if w.Del {
+			err = txn.Delete([]byte(k))
+		} else {
+			err = txn.Set([]byte(k), []byte(w.Val))
+		}
+		if err != nil {
+			panic(err)
+		}
+		if err := txn.CommitAt(ts, nil); err != nil {
+			panic(fmt.Sprintf("commit %s: %v", op, err))
+		}
+	}
+	st.writes = append(st.writes, w)
+	return true
 }
 
 type tblDump struct {
@@ -495,6 +681,26 @@ func lsmKey(x *seqExec) string {
 		dpos = int(st.discard)
 	}
 	fmt.Fprintf(&b, "D%d|", dpos)
+	for _, sn := range st.snaps {
+		fmt.Fprintf(&b, "snap%d,", sort.Search(len(vs), func(i int) bool { return vs[i] > sn.ReadTs() }))
+	}
+	for _, h := range st.held {
+		fmt.Fprintf(&b, "held%s%v,", h.key, h.it != nil)
+	}
+	if !x.db.opt.InMemory && x.j.Bool("gc", false) {
+		x.db.vlog.filesLock.RLock()
+		for i, fid := range x.db.vlog.sortedFids() {
+			fmt.Fprintf(&b, "v%d:%d,", i, x.db.vlog.filesMap[fid].size.Load())
+		}
+		x.db.vlog.filesLock.RUnlock()
+	}
+	// expiring versions: which are expired now
+	now := uint64(time.Now().Unix())
+	for _, w := range st.writes {
+		if w.Exp != 0 {
+			fmt.Fprintf(&b, "x%d:%v,", rank[w.Ts], w.Exp <= now)
+		}
+	}
 	for _, e := range mem {
 		b.WriteString(ren(e))
 		b.WriteByte(',')
@@ -546,8 +752,76 @@ func lsmReadAt(db *DB, keys []string, ts uint64) (get map[string]readObs, fwd, r
 	return
 }
 
+// txnReads reads every key through Get, a forward (prefetching) and a reverse (non-prefetching)
+// iterator of txn and compares with the model at ts.
+func (st *lsmState) txnReads(x *seqExec, txn *Txn, ts uint64, who string) (string, string) {
+	get := readKeys(txn, st.keys)
+	fwd := iterKeys(txn, false, true)
+	rev := iterKeys(txn, true, false)
+	for _, k := range st.keys {
+		want := st.modelRead(k, ts)
+		if got := get[k]; got != want {
+			return "read-changed/get", fmt.Sprintf("%s: Get(%q)@%d = %v, model %v\n  lsm: %s", who, k, ts, fmtObs(got), fmtObs(want), shapeString(x.db))
+		}
+		for name, m := range map[string]map[string]readObs{"forward": fwd, "reverse": rev} {
+			got, ok := m[k]
+			if !ok {
+				got = readObs{Val: "<nil>"}
+			}
+			if got != want {
+				return "read-changed/iter", fmt.Sprintf("%s: %s iterator key %q@%d = %v, model %v\n  lsm: %s", who, name, k, ts, fmtObs(got), fmtObs(want), shapeString(x.db))
+			}
+		}
+	}
+	return "", ""
+}
+
+func fmtObs(o readObs) string { return fmt.Sprintf("{%s v%d}", shortVal(o.Val), o.Ver) }
+
+// lsmCheckReadsNormal: normal mode.  A fresh transaction sees the latest state; every open
+// snapshot still sees exactly the state at its read timestamp; every held item still yields the
+// value it had when it was obtained.
+func lsmCheckReadsNormal(x *seqExec) (string, string) {
+	st := x.st.(*lsmState)
+	txn := x.db.NewTransaction(false)
+	c, d := st.txnReads(x, txn, txn.ReadTs(), "fresh transaction")
+	txn.Discard()
+	if c != "" {
+		return c, d
+	}
+	for i, sn := range st.snaps {
+		if c, d := st.txnReads(x, sn, sn.ReadTs(), fmt.Sprintf("snapshot %d (readTs %d)", i, sn.ReadTs())); c != "" {
+			return "snapshot-" + c, d
+		}
+	}
+	for _, h := range st.held {
+		v, err := h.item.ValueCopy(nil)
+		kind := "get"
+		if h.it != nil {
+			kind = "iterator"
+		}
+		if err != nil || string(v) != h.want {
+			return "held-item-unreadable/" + kind, fmt.Sprintf("%s item of key %q obtained earlier in a still-open transaction now reads %q (err %v), it read %q when obtained\n  lsm: %s", kind, h.key, shortVal(string(v)), err, shortVal(h.want), shapeString(x.db))
+		}
+	}
+	return "", ""
+}
+
 func lsmCheckReads(x *seqExec) (string, string) {
 	st := x.st.(*lsmState)
+	if st.normal {
+		return lsmCheckReadsNormal(x)
+	}
+	for _, h := range st.held {
+		v, err := h.item.ValueCopy(nil)
+		kind := "get"
+		if h.it != nil {
+			kind = "iterator"
+		}
+		if err != nil || string(v) != h.want {
+			return "held-item-unreadable/" + kind, fmt.Sprintf("%s item of key %q obtained earlier in a still-open transaction now reads %q (err %v), it read %q when obtained", kind, h.key, shortVal(string(v)), err, shortVal(h.want))
+		}
+	}
 	hi := st.maxTs() + 1
 	lo := st.discard
 	for ts := lo; ts <= hi; ts++ {
